@@ -302,6 +302,20 @@ def run(ctx, col: Collector):
         for n in ast.walk(loop):
             if isinstance(n, ast.If):
                 scan(n)
+        # the same question asked semantically: the loop body evaluated once per kind (tests on the kind decided, locals followed) - which table's name indexes the
+        # counter that is raised?  Covers conditional expressions, helper functions read in place, flags and early `continue`s.
+        from ..peval import run as _prun
+        for K in sorted(consts):
+            tr = _prun(fi.node, f'{rv}.type', K, inside=loop.body)
+            sides = set()
+            for tgt, _val, _conds in tr.stores:
+                if isinstance(tgt, ast.Subscript):
+                    src = norm(tgt.slice)
+                    for side in ('1', '2'):
+                        if src.startswith(f'{rv}.table{side}.') or src == f'{rv}.table{side}':
+                            sides.add(side)
+            if len(sides) == 1 and K not in counted:
+                counted[K] = (next(iter(sides)), loop)
         if not counted:
             raise Unrecognised('no `if ref.type == KIND: <name> = ref.tableN...` branch found in the counting loop', loop)
         col.check(inline_only, 'C18-direction', 'reorder_tables_for_sql:inline-only', 'only inline references influence the order',
@@ -322,6 +336,18 @@ def run(ctx, col: Collector):
                       f'comes before the table that clause references', node=node, file=fi.file)
         col.floor('C18-direction', 'counted kinds', len(counted), 2)
     guarded(col, 'C18-direction', 'direction', direction)
+
+    def holders():
+        # "each referenced table first" is about the tables whose CREATE TABLE really contains the FOREIGN KEY clause: a reference must be assigned to the table
+        # that holds it and to no namesake (selection by object, not by name) - obligations shared with C05-owner
+        sub = ctx.sub('c05', col.prop)
+        n = 0
+        for o in sub.obs:
+            if o.rule == 'C05-owner' and o.construct.startswith('get_references_for_sql:'):
+                n += 1
+                col.obs.append(type(o)(col.prop, 'C18-holder', o.construct, o.status, o.msg, o.file, o.line, o.extra))
+        col.floor('C18-holder', 'key-holder obligations', n, 3)
+    guarded(col, 'C18-holder', 'holders', holders)
 
 
 def order_only(e: Optional[ast.AST], copies: Set[str], keyed: Optional[Dict[str, str]] = None, env: Optional[Dict[str, ast.AST]] = None, depth: int = 0) -> Tuple[str, str]:
